@@ -31,6 +31,11 @@ type Trace11 struct {
 	// Prime, if set, is a symbol decoded FIRST on the same Decoder / AztecReader
 	// instance (instance-reuse history); the oracle applies to both.
 	Prime *Trace11 `json:"prime,omitempty"`
+	// Mirror (prime symbols on the reader path only): the picture shows the
+	// mirror image of the symbol. Reading mirror images is something the reader
+	// offers, not something the property demands: such a prime only makes
+	// history on the instance, its own outcome is not judged.
+	Mirror bool `json:"mirror,omitempty"`
 }
 
 type rngChooser struct{ r *kit.RNG }
@@ -119,9 +124,12 @@ func exec11(tr *Trace11, probe func(string)) (string, *fail) {
 		p.Prime = nil
 		p.Path, p.Scale, p.Rot, p.Quiet = tr.Path, tr.Scale, tr.Rot, tr.Quiet
 		probe("probe.instance_reused_after_other_symbol")
-		if out, f := exec11on(in, &p, probe); f != nil {
+		if out, f := exec11on(in, &p, probe); f != nil && !p.Mirror {
 			f.class = "prime/" + f.class
 			return out, f
+		}
+		if p.Mirror {
+			probe("probe.instance_reused_after_mirror_image")
 		}
 	}
 	out, f := exec11on(in, tr, probe)
@@ -169,6 +177,16 @@ func exec11on(in *inst11, tr *Trace11, probe func(string)) (string, *fail) {
 		}
 		what += fmt.Sprintf(" (scale %d, %d quarter turns, quiet zone %d)", tr.Scale, tr.Rot, tr.Quiet)
 		rm := rotate(m, tr.Rot)
+		if tr.Mirror {
+			t := make([][]bool, len(rm))
+			for y := range t {
+				t[y] = make([]bool, len(rm))
+				for x := range t[y] {
+					t[y][x] = rm[x][y]
+				}
+			}
+			rm = t
+		}
 		sc, q := tr.Scale, tr.Quiet
 		if sc < 1 {
 			sc = 1
@@ -599,6 +617,11 @@ func C11() *kit.Spec {
 						t2.Path = path
 						if path == "reader" {
 							t2.Scale, t2.Rot, t2.Quiet = 3, r.Intn(4), r.Range(2, 5)
+							if r.Chance(1, 3) {
+								pm := *ptr
+								pm.Mirror = true
+								t2.Prime = &pm
+							}
 						}
 						c.Eval(kit.HashJSON(&t2), true)
 						c.Event(fmt.Sprintf("%x", kit.HashJSON(&t2)))
